@@ -34,7 +34,7 @@ META = {
                    "ixseps1/2, jyseps*, ny_inner are executed with every size option a z3 Int >= 1; claims are LIA queries.",
     "bounds": "all per-region nx/ny sizes symbolic and unbounded above (>=1); y_boundary_guards enumerated 0..2 (quick) / 0..4 (thorough); "
               "topologies LSN, USN, CDN, LDN, UDN and LSN/CDN/LDN/UDN with start_at_upper_outer; nx_inter_sep symbolic >=1 for disconnected DN.",
-    "out": "coincidence of corner *coordinates* on shared x-edges (contours are shared objects there) beyond the getRZBoundary copy on y-edges; theta/chi values.",
+    "out": "coincidence of corner *coordinates* on shared x-edges (contours are shared objects there) beyond the getRZBoundary copy on y-edges; values of chi (its NaN mask and the theta index expressions are decided).",
     "assumptions": ["findLegs, coreRegionToRegion, segmentsWithPsivals (numerics) are stubbed: only sizes matter here",
                     "MeshRegion is replaced by a record stub (id, connections); EquilibriumRegion.getRegridded -> identity",
                     "BOUT++ reference semantics of ixseps/jyseps/ny_inner/y_boundary_guards written in this harness from the BOUT++ manual (BoutMesh::topology): "
